@@ -325,10 +325,14 @@ func Orchestrate(propID, tier string, seed int64, replay string) int {
 				agg.Inconclusive = append(agg.Inconclusive, fmt.Sprintf("watchdog: mode %s shard %d at case %q", oc.spec.mode.Name, oc.spec.shard, oc.journal))
 				continue
 			}
-			agg.Violations = append(agg.Violations, Violation{Prop: p.ID, Clause: "process-died", Case: firstField(oc.journal), Mode: oc.spec.mode.Name,
+			clause := "process-died"
+			if strings.Contains(oc.stderr, "WARNING: DATA RACE") {
+				clause = "data-race"
+			}
+			agg.Violations = append(agg.Violations, Violation{Prop: p.ID, Clause: clause, Case: firstField(oc.journal), Mode: oc.spec.mode.Name,
 				Seed: seed, Tier: tier, Detail: fmt.Sprintf("worker exit=%d at journal %q\n%s", oc.exitCode, oc.journal, oc.stderr),
 				Replay: map[string]any{"last_input": oc.lastIn}})
-			agg.Counters["violations.process-died"]++
+			agg.Counters["violations."+clause]++
 		}
 	}
 
